@@ -40,6 +40,12 @@ def _cg(e, env):
     if isinstance(e, ast.Name):
         if e.id in env:
             return env[e.id]
+        mod = env.get("<module>")
+        if mod is not None:
+            # a module-level integer constant (assigned once, to a literal)
+            asg = mod.global_assigns(e.id)
+            if len(asg) == 1 and isinstance(asg[0].value, ast.Constant) and isinstance(asg[0].value.value, int) and not isinstance(asg[0].value.value, bool):
+                return Lin(0, asg[0].value.value)
         raise Undecided("name %s" % e.id)
     if isinstance(e, ast.UnaryOp) and isinstance(e.op, ast.USub):
         v = _cg(e.operand, env)
@@ -100,7 +106,7 @@ def numeration(ctx, R, total=False):
                 nvar = st.targets[0].id
             else:
                 try:
-                    v = _cg(st.value, {ipar: Lin(1, 0)})
+                    v = _cg(st.value, {ipar: Lin(1, 0), "<module>": f.module})
                     if v.a == 1:
                         dvar, entry_c = st.targets[0].id, v.b
                 except Undecided:
@@ -116,7 +122,7 @@ def numeration(ctx, R, total=False):
       R.check(okg, "C20.NUMERATION", f.qual + "|guard", where(f, w), "loops exactly while div >= 1", "the digit loop runs while `%s`: it must run for every div >= 1 and stop at 0" % ntext(w.test))
     ms = {}
     for r in range(26):
-        env = {dvar: Lin(26, r)}
+        env = {dvar: Lin(26, r), "<module>": f.module}
         qmin = 1 if r == 0 else 0
         emitted = None
         prepend = None
